@@ -31,7 +31,7 @@ def plan(tier):
             "required_monitors": ["pixels-judged", "layers-judged", "vector-layers-judged", "pixel-grid",
                                   "schedule-runs", "boundscheck-runs", "rendered-figures"],
             "required_tags": ["window-smaller-than-cell", "window-larger-than-domain", "origin-on-face", "oblique",
-                              "ndim2", "ndim3", "dx-omitted"]}
+                              "ndim2", "ndim3", "dx-omitted", "origin-omitted", "resolution-omitted"]}
 
 
 def cases(ctx):
@@ -76,6 +76,10 @@ def run_case(case, ctx, res):
             res.tag("window-smaller-than-cell")
         if req["dx"] > 1.0:
             res.tag("window-larger-than-domain")
+    if req["origin_mode"] == "omitted":
+        res.tag("origin-omitted")
+    if req["resolution"] is None:
+        res.tag("resolution-omitted")
     if req["origin_mode"] in ("face", "corner"):
         res.tag("origin-on-face")
     if req.get("dir_mode") in ("vector", "vector-zero"):
